@@ -3,79 +3,424 @@ From Coq Require Import List NArith Bool Arith Lia.
 From PyFS Require Import Base.PyStr Base.Outcome Path.PathModel Path.PathSpec.
 Import ListNotations.
 
-(* STATEMENTS TO PROVE (see the task description given to the proof author):
+(* ------------------------------------------------------------------ *)
+(* Generic list / string lemmas                                        *)
+(* ------------------------------------------------------------------ *)
+
+Lemma ceqb_sym a b : ceqb a b = ceqb b a.
+Proof. unfold ceqb. apply N.eqb_sym. Qed.
+
+Lemma app_cons_ne {A} (l : list A) x r : l ++ x :: r <> [].
+Proof. destruct l; discriminate. Qed.
+
+Lemma snoc_ne {A} (l : list A) x : l ++ [x] <> [].
+Proof. apply app_cons_ne. Qed.
+
+Lemma existsb_false_Forall {A} (f : A -> bool) l :
+  existsb f l = false -> Forall (fun x => f x = false) l.
+Proof.
+  induction l as [|x l IH]; simpl; intro H; [constructor|].
+  apply orb_false_iff in H as [H1 H2]. constructor; [exact H1|apply IH; exact H2].
+Qed.
+
+Lemma join_snoc sep l x : l <> [] -> join sep (l ++ [x]) = join sep l ++ sep ++ x.
+Proof.
+  induction l as [|y l IH]; [congruence|]. intros _.
+  destruct l as [|z l].
+  - reflexivity.
+  - change ((y :: z :: l) ++ [x]) with (y :: ((z :: l) ++ [x])).
+    rewrite join_cons by apply snoc_ne.
+    rewrite IH by discriminate. rewrite (join_cons sep y (z :: l)) by discriminate.
+    rewrite <- !app_assoc. reflexivity.
+Qed.
+
+(* every component followed by a slash *)
+Definition cat (l : list str) : str := flat_map (fun c => c ++ [slash]) l.
+
+Lemma cat_cons c l : cat (c :: l) = c ++ slash :: cat l.
+Proof. unfold cat. simpl. rewrite <- app_assoc. reflexivity. Qed.
+
+Lemma cat_app a b : cat (a ++ b) = cat a ++ cat b.
+Proof. unfold cat. apply flat_map_app. Qed.
+
+Lemma join_snoc_cat l x : join [slash] (l ++ [x]) = cat l ++ x.
+Proof.
+  induction l as [|y l IH]; [reflexivity|].
+  change ((y :: l) ++ [x]) with (y :: (l ++ [x])).
+  rewrite join_cons by apply snoc_ne. rewrite IH, cat_cons.
+  rewrite <- app_assoc. reflexivity.
+Qed.
+
+Lemma join_cat l : l <> [] -> join [slash] l ++ [slash] = cat l.
+Proof.
+  intro Hn. destruct (exists_last Hn) as [l' [x E]]. subst l.
+  rewrite join_snoc_cat, cat_app, <- app_assoc. f_equal.
+  unfold cat. simpl. rewrite app_nil_r. reflexivity.
+Qed.
+
+Lemma join_head sep c l : exists t, join sep (c :: l) = c ++ t.
+Proof.
+  destruct l as [|d l].
+  - exists []. simpl. rewrite app_nil_r. reflexivity.
+  - exists (sep ++ join sep (d :: l)). reflexivity.
+Qed.
+
+Lemma ends_c_snoc_false c s x : ceqb x c = false -> ends_c c (s ++ [x]) = false.
+Proof. intro H. rewrite ends_c_app. exact H. Qed.
+
+(* ------------------------------------------------------------------ *)
+(* good components                                                     *)
+(* ------------------------------------------------------------------ *)
+
+Lemma good_ne c : good c -> c <> [].
+Proof. intros [H _]. exact H. Qed.
+
+Lemma good_noslash c : good c -> has_char slash c = false.
+Proof. intros [_ [_ [_ H]]]. exact H. Qed.
+
+Lemma good_flags c : good c -> c_empty c = false /\ c_dot c = false /\ c_dotdot c = false.
+Proof.
+  intros [H1 [H2 [H3 _]]]. repeat split.
+  - destruct c; [congruence|reflexivity].
+  - apply str_eqb_neq. exact H2.
+  - apply str_eqb_neq. exact H3.
+Qed.
+
+Lemma good_head c : good c -> exists x t, c = x :: t /\ ceqb x slash = false.
+Proof.
+  intros [H1 [_ [_ H4]]]. destruct c as [|x t]; [congruence|].
+  exists x, t. split; [reflexivity|].
+  simpl in H4. apply orb_false_iff in H4 as [H4 _]. rewrite ceqb_sym. exact H4.
+Qed.
+
+Lemma good_last c : good c -> exists t x, c = t ++ [x] /\ ceqb x slash = false.
+Proof.
+  intros [H1 [_ [_ H4]]]. destruct (exists_last H1) as [t [x E]]. subst c.
+  exists t, x. split; [reflexivity|].
+  rewrite has_char_app in H4. apply orb_false_iff in H4 as [_ H4].
+  simpl in H4. apply orb_false_iff in H4 as [H4 _]. rewrite ceqb_sym. exact H4.
+Qed.
+
+Lemma Forall_good_noslash l : Forall good l -> noslash slash l.
+Proof. unfold noslash. apply Forall_impl. intros c. apply good_noslash. Qed.
+
+Lemma good_starts c x : good c -> starts_c slash (c ++ x) = false.
+Proof. intro H. destruct (good_head c H) as [y [t [E Hy]]]. subst c. exact Hy. Qed.
+
+Lemma good_lstrip c x : good c -> lstrip_c slash (c ++ x) = c ++ x.
+Proof.
+  intro H. destruct (good_head c H) as [y [t [E Hy]]]. subst c. simpl. rewrite Hy. reflexivity.
+Qed.
+
+(* ------------------------------------------------------------------ *)
+(* to_path on good component lists                                     *)
+(* ------------------------------------------------------------------ *)
+
+Lemma join_good_starts l x : Forall good l -> l <> [] ->
+  starts_c slash (join [slash] l ++ x) = false.
+Proof.
+  intros Hg Hn. destruct l as [|c l]; [congruence|].
+  inversion Hg as [|? ? Hc Hl]; subst.
+  destruct (join_head [slash] c l) as [t Et]. rewrite Et, <- app_assoc.
+  apply good_starts. exact Hc.
+Qed.
+
+Lemma join_good_lstrip l : Forall good l -> lstrip_c slash (join [slash] l) = join [slash] l.
+Proof.
+  intros Hg. destruct l as [|c l]; [reflexivity|].
+  inversion Hg as [|? ? Hc Hl]; subst.
+  destruct (join_head [slash] c l) as [t Et]. rewrite Et.
+  apply good_lstrip. exact Hc.
+Qed.
+
+Lemma starts_c_to_path_app abs l x : Forall good l -> l <> [] ->
+  starts_c slash (to_path abs l ++ x) = abs.
+Proof.
+  intros Hg Hn. unfold to_path. destruct abs.
+  - reflexivity.
+  - simpl. apply join_good_starts; assumption.
+Qed.
+
+Lemma starts_c_to_path abs l : Forall good l -> starts_c slash (to_path abs l) = abs.
+Proof.
+  intros Hg. destruct l as [|c l].
+  - destruct abs; reflexivity.
+  - rewrite <- (app_nil_r (to_path abs (c :: l))).
+    apply starts_c_to_path_app; [exact Hg|discriminate].
+Qed.
+
+Lemma ends_c_to_path abs l : Forall good l -> l <> [] -> ends_c slash (to_path abs l) = false.
+Proof.
+  intros Hg Hn. destruct (exists_last Hn) as [l' [c E]]. subst l.
+  apply Forall_app in Hg as [_ Hc]. inversion Hc as [|? ? Hc' _]; subst.
+  destruct (good_last c Hc') as [t [x [E Hx]]]. subst c.
+  unfold to_path. rewrite join_snoc_cat. rewrite !app_assoc.
+  apply ends_c_snoc_false. exact Hx.
+Qed.
+
+Lemma rstrip_to_path abs l : Forall good l -> l <> [] ->
+  rstrip_c slash (to_path abs l) = to_path abs l.
+Proof. intros Hg Hn. apply rstrip_c_noend. apply ends_c_to_path; assumption. Qed.
+
+Lemma rstrip_join_good l : Forall good l -> rstrip_c slash (join [slash] l) = join [slash] l.
+Proof.
+  intros Hg. destruct l as [|c l]; [reflexivity|].
+  apply (rstrip_to_path false (c :: l)); [exact Hg|discriminate].
+Qed.
+
+Lemma to_path_ne abs l : l <> [] -> Forall good l -> to_path abs l <> [].
+Proof.
+  intros Hn Hg E. destruct l as [|c l]; [congruence|].
+  inversion Hg as [|? ? Hc Hl]; subst.
+  unfold to_path in E. apply app_eq_nil in E as [_ E].
+  destruct (join_head [slash] c l) as [t Et]. rewrite Et in E.
+  apply app_eq_nil in E as [E _]. apply (good_ne c Hc). exact E.
+Qed.
+
+Lemma join_good_empty l : Forall good l -> is_empty (join [slash] l) = true -> l = [].
+Proof.
+  intros Hg H. destruct l as [|c l]; [reflexivity|].
+  exfalso. apply (to_path_ne false (c :: l)); [discriminate|exact Hg|].
+  change (join [slash] (c :: l) = []).
+  destruct (join [slash] (c :: l)) as [|y t]; [reflexivity|discriminate].
+Qed.
+
+Lemma to_path_snoc abs l c : l <> [] -> to_path abs (l ++ [c]) = to_path abs l ++ slash :: c.
+Proof.
+  intro Hn. unfold to_path. rewrite join_snoc by exact Hn. rewrite <- app_assoc. reflexivity.
+Qed.
+
+Lemma split_to_path abs l : Forall good l -> l <> [] ->
+  split_on slash (to_path abs l) = (if abs then [[]] else []) ++ l.
+Proof.
+  intros Hg Hn. unfold to_path. destruct abs.
+  - change ([slash] ++ join [slash] l) with (slash :: join [slash] l).
+    simpl. rewrite split_join; [reflexivity|exact Hn|apply Forall_good_noslash; exact Hg].
+  - simpl. apply split_join; [exact Hn|apply Forall_good_noslash; exact Hg].
+Qed.
+
+(* ------------------------------------------------------------------ *)
+(* resolution                                                          *)
+(* ------------------------------------------------------------------ *)
+
+Lemma resolve_good l Y st : Forall good l ->
+  resolve_stack (l ++ Y) st = resolve_stack Y (rev l ++ st).
+Proof.
+  revert st. induction l as [|c l IH]; intros st Hg; [reflexivity|].
+  inversion Hg as [|? ? Hc Hl]; subst.
+  destruct (good_flags c Hc) as [F1 [F2 F3]].
+  simpl. rewrite F1, F2, F3. simpl. rewrite IH by exact Hl.
+  rewrite <- app_assoc. reflexivity.
+Qed.
+
+Lemma resolve_good_all l st : Forall good l -> resolve_stack l st = Some (rev st ++ l).
+Proof.
+  intro Hg. rewrite <- (app_nil_r l) at 1. rewrite resolve_good by exact Hg.
+  simpl. rewrite rev_app_distr, rev_involutive. reflexivity.
+Qed.
+
+Lemma resolve_snoc_empty X st : resolve_stack (X ++ [[]]) st = resolve_stack X st.
+Proof.
+  revert st. induction X as [|c X IH]; intros st; [reflexivity|].
+  simpl. destruct (c_empty c || c_dot c); [apply IH|].
+  destruct (c_dotdot c); [|apply IH].
+  destruct st as [|s st]; [reflexivity|apply IH].
+Qed.
+
+Lemma resolve_stack_good cs : forall st r,
+  noslash slash cs -> Forall good st -> resolve_stack cs st = Some r -> Forall good r.
+Proof.
+  induction cs as [|c cs IH]; intros st r Hns Hst H.
+  - simpl in H. inversion H; subst. apply Forall_rev. exact Hst.
+  - inversion Hns as [|? ? Hc Hcs]; subst. simpl in H.
+    destruct (c_empty c || c_dot c) eqn:E1; [apply (IH st r); assumption|].
+    destruct (c_dotdot c) eqn:E2.
+    + destruct st as [|s st]; [discriminate|].
+      inversion Hst; subst. apply (IH st r); assumption.
+    + apply (IH (c :: st) r); [assumption| |assumption].
+      constructor; [|assumption].
+      apply orb_false_iff in E1 as [E0 E1].
+      repeat split.
+      * intro; subst; discriminate.
+      * apply str_eqb_neq. exact E1.
+      * apply str_eqb_neq. exact E2.
+      * exact Hc.
+Qed.
+
+(* ------------------------------------------------------------------ *)
+(* normpath: slow path                                                 *)
+(* ------------------------------------------------------------------ *)
+
+Lemma norm_loop_resolve cs : forall st, norm_loop cs (rev st) = resolve_stack cs st.
+Proof.
+  induction cs as [|c cs IH]; intros st.
+  - reflexivity.
+  - destruct c as [|x c'].
+    + simpl. apply IH.
+    + cbn [norm_loop resolve_stack].
+      unfold in_dotdot. change (is_empty (x :: c')) with false.
+      change (c_empty (x :: c')) with false. cbn [orb].
+      change (is_dot (x :: c')) with (c_dot (x :: c')).
+      change (is_dotdot (x :: c')) with (c_dotdot (x :: c')).
+      destruct (c_dot (x :: c')) eqn:Ed.
+      * apply str_eqb_eq in Ed. rewrite Ed.
+        change (c_dotdot [dot]) with false. cbn [orb]. apply IH.
+      * destruct (c_dotdot (x :: c')) eqn:Edd; cbn [orb].
+        -- destruct st as [|s st]; [reflexivity|].
+           simpl rev. destruct (rev st ++ [s]) as [|a b] eqn:E.
+           ++ exfalso. exact (snoc_ne _ _ E).
+           ++ rewrite <- E. rewrite removelast_app1. apply IH.
+        -- change (rev st ++ [x :: c']) with (rev ((x :: c') :: st)). apply IH.
+Qed.
+
+(* ------------------------------------------------------------------ *)
+(* normpath: fast path                                                 *)
+(* ------------------------------------------------------------------ *)
+
+Definition pregood (c : str) : Prop := is_dots c = false /\ has_char slash c = false.
+
+Lemma pregood_good c : pregood c -> c <> [] -> good c.
+Proof.
+  intros [Hd Hs] Hn. unfold is_dots in Hd. apply orb_false_iff in Hd as [H1 H2].
+  repeat split.
+  - exact Hn.
+  - apply str_eqb_neq. exact H1.
+  - apply str_eqb_neq. exact H2.
+  - exact Hs.
+Qed.
+
+Lemma middle_empty_snoc l x : middle_empty (l ++ [x]) = existsb is_empty l.
+Proof.
+  induction l as [|a l IH]; [reflexivity|].
+  simpl app. destruct (l ++ [x]) as [|b t] eqn:E.
+  - exfalso. exact (snoc_ne _ _ E).
+  - change (middle_empty (a :: b :: t)) with (is_empty a || middle_empty (b :: t)).
+    simpl existsb. rewrite <- IH. reflexivity.
+Qed.
+
+Lemma Forall_good_mid mid :
+  Forall pregood mid -> existsb is_empty mid = false -> Forall good mid.
+Proof.
+  induction mid as [|c mid IH]; intros Hp He; [constructor|].
+  inversion Hp as [|? ? Hc Hm]; subst. simpl in He.
+  apply orb_false_iff in He as [He1 He2].
+  constructor; [|apply IH; assumption].
+  apply pregood_good; [exact Hc|]. intro; subst; discriminate.
+Qed.
+
+Lemma fast_decomp cs :
+  cs <> [] -> cs <> [[]] -> cs <> [[];[]] -> Forall pregood cs -> middle_empty (tl cs) = false ->
+  exists (abs : bool) l (trail : bool), l <> [] /\ Forall good l /\
+    cs = (if abs then [[]] else []) ++ l ++ (if trail then [[]] else []).
+Proof.
+  intros Hn H1 H2 Hpg Hmid.
+  destruct cs as [|c0 rest]; [congruence|]. simpl in Hmid.
+  inversion Hpg as [|? ? Hc0 Hrest]; subst.
+  destruct rest as [|r1 rest'].
+  - exists false, [c0], false. split; [discriminate|]. split; [|reflexivity].
+    constructor; [|constructor]. apply pregood_good; [exact Hc0|]. intro; subst; congruence.
+  - assert (Hne : r1 :: rest' <> []) by discriminate.
+    destruct (exists_last Hne) as [mid [cl E]]. rewrite E in *. clear E Hne r1 rest'.
+    rewrite middle_empty_snoc in Hmid.
+    apply Forall_app in Hrest as [Hpm Hpl]. inversion Hpl as [|? ? Hcl _]; subst.
+    pose proof (Forall_good_mid mid Hpm Hmid) as Hgm.
+    destruct c0 as [|x0 c0']; destruct cl as [|xl cl'].
+    + exists true, mid, true. split; [|split; [exact Hgm|reflexivity]].
+      intro; subst. apply H2. reflexivity.
+    + exists true, (mid ++ [xl :: cl']), false.
+      split; [apply snoc_ne|]. split.
+      * apply Forall_app. split; [exact Hgm|]. constructor; [|constructor].
+        apply pregood_good; [exact Hcl|discriminate].
+      * rewrite app_nil_r. reflexivity.
+    + exists false, ((x0 :: c0') :: mid), true. split; [discriminate|]. split.
+      * constructor; [|exact Hgm]. apply pregood_good; [exact Hc0|discriminate].
+      * reflexivity.
+    + exists false, ((x0 :: c0') :: mid ++ [xl :: cl']), false. split; [discriminate|]. split.
+      * constructor; [apply pregood_good; [exact Hc0|discriminate]|].
+        apply Forall_app. split; [exact Hgm|]. constructor; [|constructor].
+        apply pregood_good; [exact Hcl|discriminate].
+      * rewrite app_nil_r. reflexivity.
+Qed.
+
+Lemma join_decomp (abs : bool) l (trail : bool) : l <> [] ->
+  join [slash] ((if abs then [[]] else []) ++ l ++ (if trail then [[]] else []))
+  = to_path abs l ++ (if trail then [slash] else []).
+Proof.
+  intro Hn. unfold to_path.
+  assert (Ht : join [slash] (l ++ (if trail then [[]] else []))
+               = join [slash] l ++ (if trail then [slash] else [])).
+  { destruct trail.
+    - rewrite join_snoc by exact Hn. rewrite app_nil_r. reflexivity.
+    - rewrite !app_nil_r. reflexivity. }
+  destruct abs.
+  - change ([[]] ++ l ++ (if trail then [[]] else []))
+      with ([] :: (l ++ (if trail then [[]] else []))).
+    rewrite join_cons.
+    + rewrite Ht. simpl. reflexivity.
+    + destruct l; [congruence|discriminate].
+  - simpl. exact Ht.
+Qed.
+
+Lemma in_slash_true p : in_slash p = true -> p = [] \/ p = [slash].
+Proof.
+  unfold in_slash. intro H. apply orb_true_iff in H as [H|H].
+  - left. destruct p; [reflexivity|discriminate].
+  - right. apply str_eqb_eq in H. exact H.
+Qed.
+
+Lemma in_slash_false p : in_slash p = false -> p <> [] /\ p <> [slash].
+Proof.
+  unfold in_slash. intro H. apply orb_false_iff in H as [H1 H2]. split.
+  - intro; subst; discriminate.
+  - apply str_eqb_neq in H2. exact H2.
+Qed.
+
+Lemma resolve_decomp (abs : bool) l (trail : bool) : Forall good l ->
+  resolve ((if abs then [[]] else []) ++ l ++ (if trail then [[]] else [])) = Some l.
+Proof.
+  intro Hg. unfold resolve.
+  assert (H : resolve_stack (l ++ (if trail then [[]] else [])) [] = Some l).
+  { rewrite resolve_good by exact Hg. rewrite app_nil_r.
+    destruct trail; simpl; rewrite rev_involutive; reflexivity. }
+  destruct abs; simpl; exact H.
+Qed.
+
+Lemma fast_path p : in_slash p = false -> requires_normalization p = false ->
+  spec_normpath p = Ok (rstrip_c slash p).
+Proof.
+  intros Hin Hreq. apply in_slash_false in Hin as [Hp1 Hp2].
+  unfold requires_normalization in Hreq.
+  apply orb_false_iff in Hreq as [Hreq Hmid]. apply orb_false_iff in Hreq as [Hdots _].
+  pose proof (join_split slash p) as Hj.
+  pose proof (split_on_noslash slash p) as Hns.
+  pose proof (split_on_nonnil slash p) as Hnn.
+  unfold spec_normpath, comps.
+  remember (split_on slash p) as cs eqn:Ecs.
+  assert (Hpg : Forall pregood cs).
+  { apply existsb_false_Forall in Hdots. unfold noslash in Hns.
+    clear - Hdots Hns. induction cs as [|c cs IH]; [constructor|].
+    inversion Hdots; subst. inversion Hns; subst.
+    constructor; [split; assumption|apply IH; assumption]. }
+  assert (H1 : cs <> [[]]). { intro Hc. apply Hp1. rewrite <- Hj, Hc. reflexivity. }
+  assert (H2 : cs <> [[];[]]). { intro Hc. apply Hp2. rewrite <- Hj, Hc. reflexivity. }
+  destruct (fast_decomp cs Hnn H1 H2 Hpg Hmid) as [abs [l [trail [Hln [Hlg Ecs']]]]].
+  rewrite Ecs'. rewrite resolve_decomp by exact Hlg.
+  rewrite <- Hj. rewrite Ecs'. rewrite join_decomp by exact Hln.
+  rewrite starts_c_to_path_app by assumption.
+  f_equal. destruct trail.
+  - rewrite rstrip_c_app_slash. symmetry. apply rstrip_to_path; assumption.
+  - rewrite app_nil_r. symmetry. apply rstrip_to_path; assumption.
+Qed.
 
 Theorem normpath_spec : forall s, normpath s = spec_normpath s.
-
-Theorem normpath_clean : forall s t, normpath s = Ok t ->
-  exists cs, Forall good cs /\ t = to_path (starts_c slash s) cs.
-
-Theorem normalised_form : forall p,
-  normpath p = Ok p <-> exists abs cs, Forall good cs /\ p = to_path abs cs.
-
-Theorem normpath_idem : forall s t, normpath s = Ok t -> normpath t = Ok t.
-
-Theorem normpath_total : forall s, is_crash (normpath s) = false.
-
-Theorem normpath_raises_iff : forall s,
-  normpath s = Err IllegalBackReference <-> resolve (comps s) = None.
-
-Section NormalForms.
-  Variables (abs : bool) (cs : list str).
-  Hypothesis Hcs : Forall good cs.
-  Let p := to_path abs cs.
-
-  Theorem cform_nf : cform p = Some (abs, cs).          (* when cs = [] and abs = false, p = "" *)
-  Theorem abspath_nf : abspath p = to_path true cs.
-  Theorem relpath_nf : relpath p = to_path false cs.
-  Theorem split_nf : psplit p = spec_split (abs, cs).
-  Theorem join_split_nf : pjoin [dirname p; basename p] = Ok p.
-  Theorem split_join_nf : forall c, good c ->
-    pjoin [p; c] = Ok (to_path abs (cs ++ [c])) /\ psplit (to_path abs (cs ++ [c])) = (p, c).
-  Theorem combine_nf : forall c, good c -> lstrip_space c = c ->
-    combine p c = to_path abs (cs ++ [c]).
-  Theorem combine_split_nf : Forall (fun c => lstrip_space c = c) cs ->
-    combine (dirname p) (basename p) = p.
-  Theorem parts_nf : parts p = Ok (spec_parts (abs, cs)).
-End NormalForms.
-
-Theorem iteratepath_spec : forall s,
-  iteratepath s = match resolve (comps s) with None => Err IllegalBackReference | Some cs => Ok cs end.
-
-Theorem recursepath_spec : forall s,
-  match resolve (comps s) with
-  | None => recursepath s false = Err IllegalBackReference
-  | Some cs => cs <> [] \/ in_slash s = true ->
-               recursepath s false = Ok (map (to_path true) (prefixes cs))
-  end.
-(* (for a non-normalised spelling of the root such as "a/.." or "//" the code returns
-   ["/"; "/"]; that is outside the property, which speaks of normalised paths) *)
-
-Theorem recursepath_nf : forall abs cs, Forall good cs ->
-  recursepath (to_path abs cs) false = Ok (map (to_path true) (prefixes cs)).
-
-Theorem recursepath_reverse : forall s, recursepath s true = omap (@rev str) (recursepath s false).
-
-Theorem parts_spec : forall s,
-  parts s = match cform s with None => Err IllegalBackReference | Some f => Ok (spec_parts f) end.
-
-Theorem isbase_nf : forall a1 cs1 a2 cs2, Forall good cs1 -> Forall good cs2 ->
-  isbase (to_path a1 cs1) (to_path a2 cs2) = cprefix cs1 cs2.
-
-Theorem isparent_nf : forall a1 cs1 a2 cs2, Forall good cs1 -> Forall good cs2 ->
-  isparent (to_path a1 cs1) (to_path a2 cs2) = spec_isparent (a1, cs1) (a2, cs2).
-
-Theorem frombase_nf : forall a cs1 cs2, Forall good cs1 -> Forall good cs2 ->
-  cprefix cs1 cs2 = true ->
-  exists r, frombase (to_path a cs1) (to_path a cs2) = Ok r /\ to_path a cs1 ++ r = to_path a cs2.
-
-Theorem issamedir_nf : forall a1 cs1 a2 cs2, Forall good cs1 -> Forall good cs2 ->
-  issamedir (to_path a1 cs1) (to_path a2 cs2) = Ok (spec_issamedir (a1, cs1) (a2, cs2)).
-
-Theorem relativefrom_nf : forall a1 csb a2 csp, Forall good csb -> Forall good csp ->
-  exists r, relativefrom (to_path a1 csb) (to_path a2 csp) = Ok r
-            /\ resolve (csb ++ comps r) = Some csp.
-
-Example isbase_not_string_prefix :
-  isbase [slash; 97%N] [slash; 97%N; 98%N] = false.
-*)
+Proof.
+  intro s. unfold normpath.
+  destruct (in_slash s) eqn:Ein.
+  - apply in_slash_true in Ein as [E|E]; subst s; reflexivity.
+  - destruct (requires_normalization s) eqn:Ereq; cbn [negb].
+    + unfold spec_normpath, resolve, comps.
+      change (norm_loop (split_on slash s) []) with (norm_loop (split_on slash s) (rev [])).
+      rewrite norm_loop_resolve.
+      destruct (resolve_stack (split_on slash s) []) as [r|]; reflexivity.
+    + symmetry. apply fast_path; assumption.
+Qed.
